@@ -11,7 +11,7 @@ RULE = ('python-random histories: three well-behaved clients (names, match rules
         'messages of both byte orders (length words at limit values, bad padding/booleans/UTF-8/signatures/type/version/serial, reserved '
         'Local interface and path, forged fields), truncations followed by silence then abrupt close, trailing garbage, random garbage, '
         'oversized messages, floods of valid messages, re-Hello, traffic before Hello, abrupt closes; plus strangers that never authenticate '
-        '(junk, half handshakes, over-long lines, connect-and-go, up to 24 kept open); every eighth scenario fills max_incomplete_connections exactly (in half of them one of the unfinished connections leaves and its place must be usable again at once) '
+        '(junk, half handshakes, over-long lines, connect-and-go, floods of handshake lines whose answers are never read, up to 24 kept open; at the end of every history the bus must be asleep: processor time in a window of silence); every eighth scenario fills max_incomplete_connections exactly (in half of them one of the unfinished connections leaves and its place must be usable again at once) '
         'with authenticated connections that then all say Hello, after which new clients must be served.  Wire.tla decides per write whether it is a message, '
         'invalid or incomplete; TLC requires every inbox of every client to be exactly what Bus.tla stages (so nothing of an invalid '
         'message is visible and every bystander call is answered), no stalled barrier, daemon alive without sanitizer report; '
@@ -176,6 +176,11 @@ def gen(rng, i):
         if rng.random() < 0.25:
             r['pre'] = [{'n': rng.choice([1, 1, 3, 10]), 'hex': rng.choice(JUNK).hex(), 'keep': rng.random() < 0.5}
                         for _ in range(rng.choice([1, 2]))]
+            if rng.random() < 0.3:
+                # handshake abuse at full pace: command lines nobody will ever read the answers to, as many as the bus
+                # takes, and the connection stays (the bus must go to sleep on it, not poll it)
+                line = rng.choice([b'FROBNICATE ' + b'x' * 50, b'AUTH NOPE', b'DATA 00', b'ERROR "' + b'e' * 40 + b'"', b'CANCEL'])
+                r['pre'].append({'n': 1, 'hex': ((b'\0' if rng.random() < 0.8 else b'') + line + b'\r\n').hex(), 'flood': 6000, 'keep': True})
         for h in hostile:
             if rng.random() < 0.25:
                 continue
